@@ -182,6 +182,16 @@ AlgOf(op, A) ==
     [] op = "rem" /\ t1 = "tf" /\ t2 = "f" -> ARemTF(A[1].x, A[2].w)
     [] op = "rem" /\ t1 = "f" /\ t2 = "tf" -> ARemFT(A[1].w, A[2].x)
     [] op = "recip" -> ARecip(A[1].x)
+    [] op = "div_euclid" -> ADivEuclid(A[1].x, A[2].x)
+    [] op = "rem_euclid" -> ARemEuclid(A[1].x, A[2].x)
+    [] op = "sqrt" -> ASqrt(A[1].x)
+    [] op = "hypot" -> AHypot(A[1].x, A[2].x)
+    [] op = "min" -> AMin(A[1].x, A[2].x)
+    [] op = "max" -> AMax(A[1].x, A[2].x)
+    [] op = "signum" -> ASignum(A[1].x)
+    [] op = "copysign" -> ACopySign(A[1].x, A[2].x)
+    [] op = "to_degrees" -> AMulTT(A[1].x, DegPerRad)
+    [] op = "to_radians" -> AMulTT(A[1].x, RadPerDeg)
     [] op = "neg" -> ANeg(A[1].x)
     [] op = "abs" -> AAbs(A[1].x)
     [] op = "new_add" -> ANewAdd(A[1].w, A[2].w)
@@ -194,7 +204,12 @@ AlgOf(op, A) ==
     [] op = "round" -> ARound(A[1].x)
     [] op = "fract" -> AFract(A[1].x)
 DriftOps == {"add", "sub", "mul", "div", "rem", "recip", "neg", "abs", "new_add", "new_sub", "new_mul", "new_div",
-             "floor", "ceil", "trunc", "round", "fract"}
+             "floor", "ceil", "trunc", "round", "fract", "div_euclid", "rem_euclid", "sqrt", "hypot", "min", "max",
+             "signum", "copysign", "to_degrees", "to_radians"}
+\* powi has an integer operand: handled separately (n = 0, 1, -1 are special-cased in the source)
+PowiDrift(op, A, r) ==
+  /\ op = "powi" /\ r.t = "tf" /\ A[2].mag # <<>> /\ A[2].mag # <<1>>
+  /\ LET p == APowiLoop(A[1].x, A[2].mag) IN (IF A[2].neg THEN ARecip(p) ELSE p) # r.x
 \* TRUE iff the event is covered by the transcription and the words differ
 Drifted(op, A, r) ==
   /\ op \in DriftOps /\ r.t = "tf"
